@@ -198,7 +198,7 @@ func (c *mctx) genLeaf() *mval {
 	r := c.r
 	words := []string{"a", "", "x\ny", "‹m›", "hé", "zz z", "%d"}
 	w := words[r.Intn(len(words))]
-	n := []int{0, 7, -3, 12, 255, 300, 2000000}[r.Intn(7)]
+	n := []int{0, 7, -3, 12, 255, 300, 2000000, 0x2039, 0x203A, 10}[r.Intn(10)]
 	var v interface{}
 	switch r.Intn(12) {
 	case 0:
@@ -793,7 +793,8 @@ func genMFormat(r *Rng, n int, allowW bool) string {
 			}
 		}
 		if r.Chance(12) {
-			sb.WriteString(fmt.Sprintf("[%d]", 1+r.Intn(n+1)))
+			// argument indexes are 1-based: 0, n+1 and beyond are errors the parser must report
+			sb.WriteString(fmt.Sprintf("[%d]", []int{r.Intn(n + 2), 1 + r.Intn(n+1), 1 + r.Intn(n+1), 9}[r.Intn(4)]))
 		}
 		if r.Chance(20) {
 			sb.WriteString([]string{"1", "7", "12", "*"}[r.Intn(4)])
@@ -805,7 +806,7 @@ func genMFormat(r *Rng, n int, allowW bool) string {
 	}
 	sb.WriteString(lits[r.Intn(len(lits))])
 	if r.Chance(8) {
-		sb.WriteString([]string{"%", "%!", "%[1]v", "%[9]d", "%-", "%1", "%[", "%[x]d", "%v", "%[2]*[1]d", "%.[1]*d"}[r.Intn(11)])
+		sb.WriteString([]string{"%", "%!", "%[1]v", "%[9]d", "%-", "%1", "%[", "%[x]d", "%v", "%[2]*[1]d", "%.[1]*d", "%[0]d", "%[0]*d", "%.[0]*d", "%[1000001]d", "%[1]*[0]d"}[r.Intn(16)])
 	}
 	return sb.String()
 }
